@@ -31,4 +31,32 @@ theorem reverse_chen (Wb Ub : K → K → K)
   · rw [hU (-t) (-u) (-s), hW (-t) (-u) (-s)]; ring
 
 
+/-! ### ReverseBrownian with `return_U=True, return_A=True` in ONE call -/
+
+/-- entry (0,1) of the Levy area returned by the reversed object for `(s,t)`, both flags set, as a function of the base object -/
+def Arev01 (W0 W1 U0 U1 A01 : K → K → K) (s t : K) : K :=
+  Gen.reverse_bm_UA_A_0_0_1 s t (W0 (-t) (-s)) (W1 (-t) (-s)) (U0 (-t) (-s)) (U1 (-t) (-s)) 0 (A01 (-t) (-s)) 0 0
+
+def Wrev0 (W0 W1 U0 U1 : K → K → K) (s t : K) : K :=
+  Gen.reverse_bm_UA_W_0_0 s t (W0 (-t) (-s)) (W1 (-t) (-s)) (U0 (-t) (-s)) (U1 (-t) (-s)) 0 0 0 0
+def Wrev1 (W0 W1 U0 U1 : K → K → K) (s t : K) : K :=
+  Gen.reverse_bm_UA_W_0_1 s t (W0 (-t) (-s)) (W1 (-t) (-s)) (U0 (-t) (-s)) (U1 (-t) (-s)) 0 0 0 0
+
+/-- the base query made is `(-t, -s)`, and with both flags the returned `U` is the reversed space-time integral and `A` the negated
+Levy area - the same as with each flag alone -/
+theorem reverse_UA_values [CharZero K] (s t w0 w1 u0 u1 a00 a01 a10 a11 : K) :
+    Gen.reverse_bm_UA_qa s t w0 w1 u0 u1 a00 a01 a10 a11 = -t ∧ Gen.reverse_bm_UA_qb s t w0 w1 u0 u1 a00 a01 a10 a11 = -s ∧
+    Gen.reverse_bm_UA_U_0_0 s t w0 w1 u0 u1 a00 a01 a10 a11 = Gen.reverse_bm_U s t w0 u0 ∧
+    Gen.reverse_bm_UA_A_0_0_1 s t w0 w1 u0 u1 a00 a01 a10 a11 = -a01 ∧
+    Gen.reverse_bm_UA_A_0_1_0 s t w0 w1 u0 u1 a00 a01 a10 a11 = -a10 := by
+  exact ⟨rfl, rfl, rfl, rfl, rfl⟩
+
+/-- Chen's relation for the Levy area carries over to the reversed object (both flags in one call) -/
+theorem reverse_UA_chen (W0 W1 U0 U1 A01 : K → K → K)
+    (hA : ∀ a b c, A01 a c = A01 a b + A01 b c + (1 / 2) * (W0 a b * W1 b c - W0 b c * W1 a b)) (s u t : K) :
+    Arev01 W0 W1 U0 U1 A01 s t = Arev01 W0 W1 U0 U1 A01 s u + Arev01 W0 W1 U0 U1 A01 u t
+      + (1 / 2) * (Wrev0 W0 W1 U0 U1 s u * Wrev1 W0 W1 U0 U1 u t - Wrev0 W0 W1 U0 U1 u t * Wrev1 W0 W1 U0 U1 s u) := by
+  simp only [Arev01, Wrev0, Wrev1, Gen.reverse_bm_UA_A_0_0_1, Gen.reverse_bm_UA_W_0_0, Gen.reverse_bm_UA_W_0_1]
+  rw [hA (-t) (-u) (-s)]; ring
+
 end C03
